@@ -1,15 +1,30 @@
-"""C02 -- dispatch order; 404 / 405 / OPTIONS are exact.
+"""C02 -- dispatch picks route, then sink/static by recency; 404 / 405 / OPTIONS are exact.
 
-Contracts on
-  falcon/app.py        App._get_responder, add_sink, add_static_route, _update_sink_and_static_routes
-  falcon/asgi/app.py   App.add_sink
-  falcon/routing/util.py   map_http_methods, set_default_responders
-  falcon/responders.py     path_not_found[_async], bad_request[_async], create_method_not_allowed, create_default_options
-  falcon/routing/static.py StaticRoute.match
+Chain and where each link is proved (targets are the real functions, re-read from source):
+
+  App.__init__ (both flavours)            new app: empty tables, configured order remembered           app_init
+  App.add_sink / asgi.App.add_sink        [e] ++ sinks, statics unchanged, combined table rebuilt      add_sink
+  App.add_static_route                    sinks unchanged, [e] ++ statics, combined table rebuilt      add_static_route
+  App._update_sink_and_static_routes      combined == sinks ++ statics | statics ++ sinks              update_tables
+      -> tables are python lists of ARBITRARY length and content (z3 Seq); by induction over the
+         registration history each table is newest-first and the combined table is in configured order
+  App._get_responder                      route (masks everything) | least matching index | 404
+      get_responder[n=0..3]   concrete tables, every combination of sink/static and match/no match,
+                              replayable counter-models
+      get_responder_any_length  table of arbitrary length n, loop invariant "no earlier entry matched"
+  App.add_route / asgi.App.add_route / CompiledRouter.add_route       route_wiring
+      the node's method map is map_http_methods(resource, suffix) completed by
+      set_default_responders(map, asgi=<flavour>)
+  routing.util.map_http_methods           exactly the callable on_<method>[_<suffix>] attributes
+  routing.util.set_default_responders     domain, user's responders kept, default OPTIONS, shared 405
+  responders.create_method_not_allowed / create_default_options / path_not_found* / bad_request*
+  errors.HTTPMethodNotAllowed.__init__    Allow == ', '.join(allowed)
+  App.__call__ / asgi.App.__call__        prefix only: meta methods (WEBSOCKET) are answered 400 before routing
+  StaticRoute.match                       the matcher of a static entry
 """
 from __future__ import annotations
 
-from pyvc.core import And, Iff, Implies, Ite, Len, Not, Or
+from pyvc.core import And, Iff, Implies, Len, Not, Or
 from pyvc.harness import harness, stubclass
 
 PROP = 'C02'
@@ -115,10 +130,6 @@ def app_obj(v, asgi, **fields):
     return v.obj(AAPP if asgi else APP, **fields)
 
 
-def same_str(a, b):
-    return a == b
-
-
 # ---------------------------------------------------------------------------
 # _get_responder
 
@@ -168,7 +179,7 @@ def get_responder(v):
     if kind in (1, 2):
         # a route matched
         v.check('route-masks-sinks-and-static-routes', len(log) == 0)
-        v.check('route-lookup-is-by-request-method-or-WEBSOCKET', len(mm.asked) == 1 and same_str(mm.asked[0], expected_key))
+        v.check('route-lookup-is-by-request-method-or-WEBSOCKET', len(mm.asked) == 1 and (mm.asked[0] == expected_key))
         if has:
             v.check('route-responder-is-method-map-entry', responder is RESP)
             v.cover('route-with-method')
@@ -227,14 +238,18 @@ class Table:
         self.hit = lambda i: mk_bool(hit(i.t if hasattr(i, 't') else i))
         self.sink = lambda i: mk_bool(sink(i.t if hasattr(i, 't') else i))
         self.path_ok = True
+        self.touched = False
 
     def __pyvc_seq__(self):
+        self.touched = True
         return self
 
     def length(self):
+        self.touched = True
         return self.n
 
     def __getitem__(self, i):
+        self.touched = True
         return (IMatcher(self, i), ITarget(self, i), self.sink(i))
 
     def none_before(self, i):
@@ -294,13 +309,16 @@ def _scan_invariant(reg, ex):
 
 @harness(PROP, APP + '._get_responder', setup=_scan_invariant)
 def get_responder_any_length(v):
-    """No route; a table of arbitrary length: the least matching index wins, else 404."""
+    """A table of arbitrary length: a route never looks at it; without a route the least matching index wins, else 404."""
     if v.concrete:
         return  # the table is a function symbol: counter-models are replayed by the n=0..3 harnesses
     asgi = v.choose(2, 'asgi-app?')
     cls = v.real(AAPP if asgi else APP)
     req = Req(v)
-    search = RouterSearch(None if v.choose(2, 'route-result') == 0 else (None, None, None))
+    rk = v.choose(3, 'route-result')
+    RES, RESP, PARAMS = Tok('resource'), Tok('responder'), Tok('route-params')
+    mm = MethodMap(v, v.choose(2, 'method-in-map?'), RESP) if rk == 2 else None
+    search = RouterSearch([None, (None, None, None), (RES, mm, PARAMS, 'tmpl')][rk])
     t = Table(v, req.path)
     app = app_obj(v, asgi, _router_search=search, _sink_and_static_routes=t)
     out = v.call(app, req)
@@ -308,6 +326,14 @@ def get_responder_any_length(v):
     if out.exc is not None:
         return
     responder, params, resource, uri_template = out.value
+    if rk == 2:
+        v.check('route-masks-sinks-and-static-routes', not t.touched)
+        v.check('route-responder-is-method-map-entry' if mm.has else 'route-without-method-gets-bad-request-default',
+                responder is (RESP if mm.has else cls._default_responder_bad_request))
+        v.check('route-fields-are-the-params', params is PARAMS)
+        v.check('route-resource-returned', resource is RES)
+        v.cover('route')
+        return
     v.check('no-route-resource-is-none', resource is None)
     v.check('no-route-template-is-none', uri_template is None)
     v.check('matchers-see-the-request-path', t.path_ok)
@@ -529,14 +555,12 @@ class Tables:
             return False
         return _zb(a == b)
 
-    def combined(self, S, T):
-        return Ite(self.sbs, True, False) and None  # placeholder, see check_combined
-
-    def check_step(self, S1, T1):
-        """S1/T1: the expected tables after the step (spec side)."""
+    def check_step(self, S1, T1, changed=None):
+        """S1/T1: the expected tables after the step (spec side); `changed`: which table got the new head."""
         v = self.v
-        v.check('sinks-table-newest-first', self.is_kind('_sinks', False) and self.eq(self.now('_sinks'), S1))
-        v.check('static-table-newest-first', self.is_kind('_static_routes', False) and self.eq(self.now('_static_routes'), T1))
+        v.check('sinks-table-newest-first' if changed == 'sinks' else 'sinks-table-untouched', self.is_kind('_sinks', False) and self.eq(self.now('_sinks'), S1))
+        v.check('static-table-newest-first' if changed == 'statics' else 'static-table-untouched',
+                self.is_kind('_static_routes', False) and self.eq(self.now('_static_routes'), T1))
         if not self.is_kind('_sink_and_static_routes', True):
             v.check('combined-table-is-sinks-and-statics-in-configured-order', False)
             return
@@ -597,14 +621,13 @@ def add_sink(v):
         return
     # the entry that must now head the sinks table
     pattern = re.compile('/' if prefix is None else prefix) if pk != 2 else prefix
-    head = t.now('_sinks')
     entry = _head(v, t, '_sinks')
     v.check('new-sink-entry-is-pattern-sink-true',
             isinstance(entry, tuple) and len(entry) == 3 and _same_value(entry[0], pattern) and entry[2] is True
             and (_is_wrapped(v, entry[1], sink) if wrapped else entry[1] is sink))
     if not isinstance(entry, tuple):
         return
-    t.check_step(t.cat(t.unit(entry), t.S0), t.T0)
+    t.check_step(t.cat(t.unit(entry), t.S0), t.T0, changed='sinks')
     v.cover('registered')
 
 
@@ -612,7 +635,11 @@ def _head(v, t, field):
     """The entry at index 0 of a table after the step (None when that is not a freshly created entry)."""
     x = v.get(t.app, field)
     if v.concrete:
-        return x[0] if x else None
+        old = t.S0 + t.T0
+        created = [e for e in x if not any(e is o for o in old)] if isinstance(x, (list, tuple)) else []
+        if x and any(x[0] is e for e in created):
+            return x[0]
+        return created[0] if len(created) == 1 else None
     import z3
 
     if not isinstance(x, GList):
@@ -658,7 +685,7 @@ def add_static_route(v):
     v.check('new-static-entry-is-route-route-false', ok)
     if not isinstance(entry, tuple):
         return
-    t.check_step(t.S0, t.cat(t.unit(entry), t.T0))
+    t.check_step(t.S0, t.cat(t.unit(entry), t.T0), changed='statics')
     v.cover('registered')
 
 
@@ -674,6 +701,589 @@ def update_tables(v):
         t.check_step(t.S0, t.T0)
 
 
+def _init_setup(reg, ex):
+    def noop(name):
+        def stub(I, self, *a, **k):
+            I.ctx.ghost.setdefault('init_calls', []).append(name)
+
+        return stub
+
+    for key in (APP + '.add_middleware', APP + '.add_error_handler', AAPP + '.add_error_handler', 'falcon.routing.compiled:CompiledRouter.__init__',
+                'falcon.request:RequestOptions.__init__', 'falcon.response:ResponseOptions.__init__', 'falcon.asgi.ws:WebSocketOptions.__init__',
+                'falcon.middleware:CORSMiddleware.__init__'):
+        reg.stubs[key] = noop(key)
+
+
+def app_init(v):
+    """Base case: a new app has empty sink / static / combined tables and remembers the configured order."""
+    asgi = v.choose(2, 'asgi-app?')
+    how = v.choose(3, 'sink_before_static_route-argument')  # omitted / True / False
+    kw = {} if how == 0 else {'sink_before_static_route': how == 1}
+    if v.choose(2, 'cors_enable?'):
+        kw['cors_enable'] = True
+    app = v.obj(AAPP if asgi else APP)
+    out = v.call(app, target=(AAPP if asgi else APP) + '.__init__', **kw)
+    v.check('no-exception', out.exc is None)
+    if out.exc is not None:
+        return
+    S, T, C = v.get(app, '_sinks'), v.get(app, '_static_routes'), v.get(app, '_sink_and_static_routes')
+    v.check('new-app-has-no-sinks', isinstance(S, list) and S == [])
+    v.check('new-app-has-no-static-routes', isinstance(T, list) and T == [] and T is not S)
+    v.check('new-app-has-empty-combined-table', isinstance(C, tuple) and C == ())
+    v.check('sinks-come-first-unless-configured-otherwise', v.get(app, '_sink_before_static_route') is (how != 2))
+    v.cover('constructed')
+
+
+for _a in (0, 1):
+    harness(PROP, (AAPP if _a else APP) + '.__init__', name='app_init[asgi=%d]' % _a, setup=_init_setup, fix={'asgi-app?': _a},
+            inline=[APP + '.__init__'])(app_init)
+
+
+# ---------------------------------------------------------------------------
+# default responders (falcon/responders.py) and the 405 exception's Allow header
+
+
+def invoke(v, fn, *args, **kw):
+    """Call a responder produced by the subject (an interpreted closure / a real function)."""
+    from pyvc.core import ExcVal, Outcome
+
+    if not v.concrete:
+        return v.interp.run(fn, args, kw)
+    try:
+        r = fn(*args, **kw)
+        if hasattr(r, '__await__'):
+            import asyncio
+
+            r = asyncio.new_event_loop().run_until_complete(r)
+        return Outcome(value=r)
+    except Exception as e:  # noqa: BLE001 - the responder's own exception is the observation
+        return Outcome(exc=ExcVal(type(e), e.args, real=e))
+
+
+def is_coroutine_function(v, fn):
+    if v.concrete:
+        import inspect
+
+        return inspect.iscoroutinefunction(fn)
+    return bool(getattr(fn, 'is_async', False))
+
+
+@stubclass
+class Resp:
+    """falcon.Response as far as a default responder touches it: status attribute + set_header (C15)."""
+
+    def __init__(self):
+        object.__setattr__(self, 'writes', [])
+
+    def __setattr__(self, name, val):
+        self.writes.append(('attr', name, val))
+
+    def set_header(self, name, value):
+        self.writes.append(('header', name, value))
+
+
+def sym_strings(v, label, base):
+    n = v.choose(4, label)
+    return [v.str('%s%d' % (base, i)) for i in range(n)]
+
+
+def joined(xs, sep=', '):
+    out = ''
+    for i, x in enumerate(xs):
+        out = (out + sep + x) if i else x
+    return out
+
+
+def RESPONDERS(name):
+    return 'falcon.responders:' + name
+
+
+@harness(PROP, RESPONDERS('create_method_not_allowed'))
+def method_not_allowed_responder(v):
+    asgi = bool(v.choose(2, 'asgi?'))
+    allowed = sym_strings(v, 'allowed-count', 'allowed')
+    out = v.call(allowed, asgi=asgi) if v.choose(2, 'asgi-by-keyword?') else v.call(allowed, asgi)
+    v.check('no-exception', out.exc is None)
+    if out.exc is not None:
+        return
+    r = out.value
+    v.check('responder-flavour-follows-asgi-flag', is_coroutine_function(v, r) == asgi)
+    resp = Resp()
+    o2 = invoke(v, r, Tok('req'), resp, **({'id': Tok('field')} if v.choose(2, 'with-route-fields?') else {}))
+    HTTPMethodNotAllowed = v.real('falcon.errors:HTTPMethodNotAllowed')
+    v.check('responder-raises-405', o2.exc is not None and o2.exc.isa(HTTPMethodNotAllowed))
+    if o2.exc is None:
+        return
+    if o2.exc.real is not None:
+        got = o2.exc.real.headers.get('Allow')
+        v.check('405-carries-exactly-the-given-methods', got == joined(allowed))
+    else:
+        v.check('405-carries-exactly-the-given-methods', len(o2.exc.args) == 1 and not o2.exc.kwargs and o2.exc.args[0] is allowed)
+    v.check('405-responder-leaves-response-alone', resp.writes == [])
+    v.cover('raised')
+
+
+def _http_error_init(reg, ex):
+    def stub(I, self, status, **kw):
+        self._fields['super_init'] = (status, kw)
+
+    reg.stubs['falcon.http_error:HTTPError.__init__'] = stub
+
+
+@harness(PROP, 'falcon.errors:HTTPMethodNotAllowed.__init__', setup=_http_error_init, inline=['falcon.errors:_load_headers'])
+def method_not_allowed_exception(v):
+    """The Allow header of the 405 is the comma-separated list of exactly the given methods."""
+    allowed = sym_strings(v, 'allowed-count', 'allowed')
+    e = v.obj('falcon.errors:HTTPMethodNotAllowed')
+    out = v.call(e, allowed)
+    v.check('no-exception', out.exc is None)
+    if out.exc is not None:
+        return
+    HTTP_405 = v.real('falcon.status_codes:HTTP_405')
+    if v.concrete:
+        st, headers = e.status, e.headers
+    else:
+        st, kw = e._fields.get('super_init', (None, {}))
+        headers = kw.get('headers')
+    v.check('status-is-405', st == HTTP_405 and HTTP_405.startswith('405 '))
+    v.check('allow-header-is-the-joined-list', isinstance(headers, dict) and list(headers) == ['Allow'] and And(True, headers['Allow'] == joined(allowed)))
+
+
+@harness(PROP, RESPONDERS('create_default_options'))
+def default_options_responder(v):
+    asgi = bool(v.choose(2, 'asgi?'))
+    allowed = sym_strings(v, 'allowed-count', 'allowed')
+    out = v.call(allowed, asgi=asgi) if v.choose(2, 'asgi-by-keyword?') else v.call(allowed, asgi)
+    v.check('no-exception', out.exc is None)
+    if out.exc is not None:
+        return
+    r = out.value
+    v.check('responder-flavour-follows-asgi-flag', is_coroutine_function(v, r) == asgi)
+    resp = Resp()
+    o2 = invoke(v, r, Tok('req'), resp, **({'id': Tok('field')} if v.choose(2, 'with-route-fields?') else {}))
+    v.check('options-responder-returns-normally', o2.exc is None)
+    if o2.exc is not None:
+        return
+    attrs = [(n, x) for k, n, x in resp.writes if k == 'attr']
+    hdrs = [(n, x) for k, n, x in resp.writes if k == 'header']
+    v.check('options-status-200', len(attrs) == 1 and attrs[0][0] == 'status' and attrs[0][1] == '200 OK')
+    names = [n.lower() for n, _ in hdrs]
+    v.check('options-sets-allow-and-content-length-only', sorted(names) == ['allow', 'content-length'])
+    if sorted(names) != ['allow', 'content-length']:
+        return
+    h = {n.lower(): x for n, x in hdrs}
+    v.check('options-allow-lists-exactly-the-given-methods', h['allow'] == joined(allowed))
+    v.check('options-content-length-zero', h['content-length'] == '0')
+    v.cover('answered')
+
+
+def fixed_raiser(v):
+    which = v.choose(4, 'responder')
+    name = ['path_not_found', 'path_not_found_async', 'bad_request', 'bad_request_async'][which]
+    resp = Resp()
+    out = v.call(Tok('req'), resp, target=RESPONDERS(name), **({'id': Tok('field')} if v.choose(2, 'with-route-fields?') else {}))
+    want = v.real('falcon.errors:HTTPRouteNotFound' if which < 2 else 'falcon.errors:HTTPBadRequest')
+    code = '404' if which < 2 else '400'
+    v.check('default-responder-raises-its-error', out.exc is not None and out.exc.isa(want))
+    if out.exc is None:
+        return
+    real = out.exc.real
+    v.check('default-responder-status', real is not None and str(real.status).startswith(code + ' '))
+    v.check('default-responder-leaves-response-alone', resp.writes == [])
+    # wiring: the app classes use the flavour-appropriate pair
+    wsgi, asgi = v.real(APP), v.real(AAPP)
+    R = v.real('falcon.responders')
+    v.check('apps-are-wired-to-these-defaults',
+            wsgi._default_responder_path_not_found is R.path_not_found and wsgi._default_responder_bad_request is R.bad_request
+            and asgi._default_responder_path_not_found is R.path_not_found_async and asgi._default_responder_bad_request is R.bad_request_async)
+
+
+for _i, _n in enumerate(['path_not_found', 'path_not_found_async', 'bad_request', 'bad_request_async']):
+    harness(PROP, RESPONDERS(_n), name=_n, fix={'responder': _i})(fixed_raiser)
+
+
+# ---------------------------------------------------------------------------
+# routing.util: map_http_methods / set_default_responders
+#
+# Both loop over the concrete tuple COMBINED_METHODS and touch each method independently of the
+# others; the configuration space (3^23 attribute states, 2^23 key sets) is explored by case
+# enumeration on concrete inputs (see NOT_DECIDED): one arbitrary method under every state, crossed
+# with representative backgrounds.
+
+UTIL = 'falcon.routing.util'
+
+
+class Responder:
+    def __init__(self, name):
+        self.name = name
+
+    def __call__(self, req, resp, **kw):
+        pass
+
+    def __repr__(self):
+        return '<responder %s>' % self.name
+
+
+class Resource:
+    pass
+
+
+def attr_name(method, suffix):
+    # the documented naming convention: on_<method>[_<suffix>]
+    return 'on_' + method.lower() + ('_' + suffix if suffix else '')
+
+
+def map_methods(v):
+    constants = v.real('falcon.constants')
+    ALL = list(constants.COMBINED_METHODS)
+    sk = v.choose(3, 'suffix-kind')
+    suffix = [None, '', 'items'][sk]
+    m0 = ALL[v.choose(len(ALL), 'method-under-test')]
+    plain_state = v.choose(3, 'plain-attribute')      # absent / callable / not callable
+    suffixed_state = v.choose(3, 'suffixed-attribute')
+    background = v.choose(4, 'other-methods')          # none / plain only / suffixed only / both
+    res = Resource()
+    plain, suffixed = {}, {}
+
+    def put(m, kind, state):
+        if state == 0:
+            return
+        val = Responder(kind + ':' + m) if state == 1 else 42
+        setattr(res, attr_name(m, 'items' if kind == 'suffixed' else None), val)
+        (suffixed if kind == 'suffixed' else plain)[m] = val
+
+    for m in ALL:
+        if m == m0:
+            put(m, 'plain', plain_state)
+            put(m, 'suffixed', suffixed_state)
+        else:
+            put(m, 'plain', 1 if background in (1, 3) else 0)
+            put(m, 'suffixed', 1 if background in (2, 3) else 0)
+
+    out = v.call(res) if sk == 0 and v.choose(2, 'suffix-omitted?') else v.call(res, suffix)
+    # specification: exactly the existing callable attributes named on_<method>[_<suffix>]
+    source = suffixed if suffix else plain
+    expected = {m: source[m] for m in ALL if m in source and callable(source[m])}
+    NotFound = v.real(UTIL + ':SuffixedMethodNotFoundError')
+    must_raise = bool(suffix) and not expected
+    v.check('suffix-without-responders-is-an-error', (out.exc is not None and out.exc.isa(NotFound)) if must_raise else out.exc is None)
+    if out.exc is not None:
+        v.cover('raised')
+        return
+    mm = out.value
+    v.check('maps-exactly-the-existing-callable-responders', isinstance(mm, dict) and set(mm) == set(expected))
+    v.check('each-method-maps-to-its-own-responder', isinstance(mm, dict) and all(m in expected and mm[m] is expected[m] for m in mm))
+    if suffix:
+        v.check('suffixed-route-reaches-only-suffixed-responders', all(not any(r is p for p in plain.values()) for r in mm.values()))
+    else:
+        v.check('unsuffixed-route-reaches-only-unsuffixed-responders', all(not any(r is s for s in suffixed.values()) for r in mm.values()))
+    v.cover('mapped')
+
+
+for _s in range(3):
+    harness(PROP, UTIL + ':map_http_methods', name='map_http_methods[suffix=%s]' % ['None', 'empty', 'items'][_s], fix={'suffix-kind': _s})(map_methods)
+
+
+# --- wiring: add_route builds the route's method map with exactly these two functions ------------
+
+CR = 'falcon.routing.compiled:CompiledRouter'
+
+
+def _wiring_setup(reg, ex):
+    def mhm(I, resource, suffix=None):
+        g = I.ctx.ghost
+        g.setdefault('log', []).append(('map_http_methods', resource, suffix))
+        return g['method_map']
+
+    def sdr(I, method_map, asgi=False):
+        I.ctx.ghost.setdefault('log', []).append(('set_default_responders', method_map, asgi))
+
+    def req(kind):
+        return lambda I, self, mm: I.ctx.ghost.setdefault('log', []).append((kind, mm))
+
+    reg.stubs[UTIL + ':map_http_methods'] = mhm
+    reg.stubs[UTIL + ':set_default_responders'] = sdr
+    reg.stubs[CR + '._require_coroutine_responders'] = req('require-coroutines')
+    reg.stubs[CR + '._require_non_coroutine_responders'] = req('require-non-coroutines')
+
+
+def route_wiring(v):
+    """App.add_route -> router.add_route: the node's method map is map_http_methods(resource, suffix) completed by
+    set_default_responders(..., asgi=<flavour of the app>)."""
+    asgi = bool(v.choose(2, 'asgi-app?'))
+    suffix = [None, 'items'][v.choose(2, 'suffix?')]
+    kw = {} if suffix is None else {'suffix': suffix}
+    if v.concrete:
+        return _route_wiring_replay(v, asgi, suffix, kw)
+    RES = Tok('resource')
+    MM = {'GET': Tok('on_get')}
+    v.ctx.ghost['method_map'] = MM
+    router = v.obj(CR, _roots=[], _find=None, _converter_map={})
+    app = app_obj(v, asgi, _router=router)
+    out = v.call(app, '/things', RES, target=(AAPP if asgi else APP) + '.add_route', **kw)
+    v.check('no-exception', out.exc is None)
+    if out.exc is not None:
+        return
+    log = v.ctx.ghost.get('log', [])
+    v.check('method-map-is-built-from-the-resource-and-the-route-suffix',
+            len(log) >= 1 and log[0][0] == 'map_http_methods' and log[0][1] is RES and log[0][2] == suffix
+            and sum(1 for e in log if e[0] == 'map_http_methods') == 1)
+    v.check('defaults-are-filled-in-the-flavour-of-the-app',
+            len(log) >= 2 and log[1][0] == 'set_default_responders' and log[1][1] is MM and log[1][2] is asgi
+            and sum(1 for e in log if e[0] == 'set_default_responders') == 1)
+    v.check('responder-flavour-is-validated', len(log) == 3 and log[2][0] == ('require-coroutines' if asgi else 'require-non-coroutines') and log[2][1] is MM)
+    roots = v.get(router, '_roots')
+    node = roots[0] if len(roots) == 1 else None
+    v.check('route-node-carries-that-method-map-and-resource',
+            node is not None and v.get(node, 'method_map') is MM and v.get(node, 'resource') is RES and v.get(node, 'uri_template') == '/things')
+    v.cover('wired')
+
+
+def _route_wiring_replay(v, asgi, suffix, kw):
+    """Replay on the real classes: the same clauses, observed through the router's find()."""
+    import inspect
+
+    class SyncThing:
+        def on_get(self, req, resp):
+            pass
+
+        def on_get_items(self, req, resp):
+            pass
+
+    class AsyncThing:
+        async def on_get(self, req, resp):
+            pass
+
+        async def on_get_items(self, req, resp):
+            pass
+
+    clauses = ['no-exception', 'method-map-is-built-from-the-resource-and-the-route-suffix', 'defaults-are-filled-in-the-flavour-of-the-app',
+               'responder-flavour-is-validated', 'route-node-carries-that-method-map-and-resource']
+    res = AsyncThing() if asgi else SyncThing()
+    app = v.real(AAPP if asgi else APP)()
+    out = v.call(app, '/things', res, target=(AAPP if asgi else APP) + '.add_route', **kw)
+    found = app._router.find('/things') if out.exc is None else None
+    if found is None:
+        for c in clauses:
+            v.check(c, False)
+        return
+    resource, mm, params, tmpl = found
+    v.check('no-exception', True)
+    v.check('method-map-is-built-from-the-resource-and-the-route-suffix', mm.get('GET') == (res.on_get_items if suffix else res.on_get))
+    v.check('defaults-are-filled-in-the-flavour-of-the-app', 'POST' in mm and inspect.iscoroutinefunction(mm['POST']) == asgi)
+    v.check('route-node-carries-that-method-map-and-resource', resource is res and tmpl == '/things')
+
+
+for _a in (0, 1):
+    harness(PROP, (AAPP if _a else APP) + '.add_route', name='route_wiring[asgi=%d]' % _a, setup=_wiring_setup, fix={'asgi-app?': _a},
+            inline=[APP + '.add_route', 'falcon.routing.compiled:*'])(route_wiring)
+
+
+REPRESENTATIVES = ['GET', 'HEAD', 'POST', 'PUT', 'DELETE', 'PATCH', 'OPTIONS', 'WEBSOCKET', 'VERSION-CONTROL', 'CHECKIN']
+
+
+def parse_allow(h):
+    return [] if h == '' else h.split(', ')
+
+
+def default_responders(v):
+    constants = v.real('falcon.constants')
+    ALL = list(constants.COMBINED_METHODS)
+    META = set(constants._META_METHODS)
+    asgi = bool(v.choose(2, 'asgi?'))
+    rest = v.choose(2, 'all-other-methods-implemented?')
+    K = []
+    for m in reversed(ALL):  # insertion order deliberately not sorted
+        if m in REPRESENTATIVES:
+            if v.choose(2, 'implements-%s?' % m):
+                K.append(m)
+        elif rest:
+            K.append(m)
+    user = {m: Responder('user:' + m) for m in K}
+    mm = dict(user)
+    out = v.call(mm, asgi=asgi) if asgi else (v.call(mm) if v.choose(2, 'asgi-omitted?') else v.call(mm, False))
+    v.check('no-exception', out.exc is None and out.value is None)
+    if out.exc is not None:
+        return
+    implemented = sorted(set(K) - META)
+    v.check('domain-is-all-methods-plus-given-keys', set(mm) == set(ALL) | set(K))
+    v.check('implemented-responders-untouched', all(mm.get(m) is user[m] for m in K))
+    # --- OPTIONS
+    opt = mm.get('OPTIONS')
+    if 'OPTIONS' in K:
+        v.check('user-options-responder-kept', opt is user['OPTIONS'])
+    else:
+        v.check('default-options-flavour-follows-asgi-flag', opt is not None and is_coroutine_function(v, opt) == asgi)
+        resp = Resp()
+        o = invoke(v, opt, Tok('req'), resp) if opt is not None else None
+        ok = o is not None and o.exc is None
+        hdrs = {n.lower(): x for k, n, x in resp.writes if k == 'header'}
+        attrs = [(n, x) for k, n, x in resp.writes if k == 'attr']
+        v.check('default-options-answers-200', ok and attrs == [('status', '200 OK')])
+        got = parse_allow(hdrs.get('allow', '?'))
+        v.check('default-options-allow-lists-exactly-the-implemented-methods', ok and set(got) == set(implemented) and len(got) == len(set(got)))
+        v.check('default-options-allow-excludes-meta-methods', not (set(got) & META))
+        v.cover('default-options')
+    # --- 405 for everything not implemented
+    missing = [m for m in ALL if m not in K and m != 'OPTIONS']
+    nas = [mm.get(m) for m in missing]
+    v.check('unimplemented-methods-share-one-405-responder', all(r is not None and r is nas[0] for r in nas))
+    if missing and nas[0] is not None:
+        na = nas[0]
+        v.check('405-responder-flavour-follows-asgi-flag', is_coroutine_function(v, na) == asgi)
+        v.check('405-responder-is-none-of-the-implemented-ones', all(na is not r for r in user.values()) and na is not opt)
+        o = invoke(v, na, Tok('req'), Resp())
+        HTTPMethodNotAllowed = v.real('falcon.errors:HTTPMethodNotAllowed')
+        raised = o.exc is not None and o.exc.isa(HTTPMethodNotAllowed) and o.exc.real is not None
+        v.check('unimplemented-method-raises-405', raised)
+        if raised:
+            got = parse_allow(o.exc.real.headers.get('Allow', '?'))
+            v.check('405-allow-lists-exactly-implemented-plus-options', set(got) == set(implemented) | {'OPTIONS'} and len(got) == len(set(got)))
+            v.check('405-allow-excludes-meta-methods', not (set(got) & META))
+            v.cover('405')
+
+
+for _a in (0, 1):
+    for _r in (0, 1):
+        harness(PROP, UTIL + ':set_default_responders', name='set_default_responders[asgi=%d,rest=%d]' % (_a, _r),
+                inline=[RESPONDERS('create_default_options'), RESPONDERS('create_method_not_allowed')],
+                fix={'asgi?': _a, 'all-other-methods-implemented?': _r})(default_responders)
+
+
+# ---------------------------------------------------------------------------
+# the meta-method guard at the top of both __call__: an HTTP request whose method is a meta method
+# (WEBSOCKET) is answered 400 before routing, so HTTP traffic can never reach an on_websocket responder.
+# The run is stopped (by an exception that is no Exception) at the first of: routing / error handling.
+
+
+class StopHere(BaseException):
+    pass
+
+
+@stubclass
+class Factory:
+    def __init__(self, product):
+        self.product = product
+        self.calls = 0
+
+    def __call__(self, *a, **k):
+        self.calls += 1
+        return self.product
+
+
+@stubclass
+class GuardReq:
+    def __init__(self, v):
+        self.method = v.str('method')
+        self.is_websocket = False
+        self.path = v.str('path')
+
+
+@stubclass
+class GuardResp:
+    complete = False
+
+
+def _guard_setup(reg, ex):
+    from pyvc.core import ExcVal, PyRaise
+    from pyvc.harness import Ready
+
+    def stop(I, where, **info):
+        I.ctx.ghost['stopped'] = dict(info, where=where)
+        raise PyRaise(ExcVal(StopHere, (where,)))
+
+    reg.stubs[APP + '._get_responder'] = lambda I, self, req: stop(I, 'routing')
+    for a in (APP, AAPP):
+        reg.stubs[a + '._handle_exception'] = lambda I, self, req, resp, ex, params: stop(I, 'error-handling', ex=ex)
+    reg.stubs['falcon.asgi._asgi_helpers:_validate_asgi_scope'] = lambda I, scope_type, spec_version, http_version: '2.1'
+
+
+def meta_guard(v):
+    from pyvc.harness import Ready
+
+    asgi = v.choose(2, 'asgi-app?')
+    if v.concrete:
+        return _meta_guard_replay(v, asgi)
+    req = GuardReq(v)
+    app = app_obj(v, asgi, _request_type=Factory(req), _response_type=Factory(GuardResp()), req_options=Tok('req_options'), resp_options=Tok('resp_options'),
+                  _middleware=((), (), ()), _independent_middleware=True)
+    if asgi:
+        scope = {'type': 'http', 'asgi': {'version': '3.0', 'spec_version': '2.1'}, 'http_version': '1.1'}
+        receive = Factory(Ready({'type': 'http.request'}))
+        out = v.call(app, scope, receive, Tok('send'), target=AAPP + '.__call__')
+    else:
+        out = v.call(app, {'REQUEST_METHOD': 'x'}, Tok('start_response'), target=APP + '.__call__')
+    st = v.ctx.ghost.get('stopped')
+    v.check('stops-at-routing-or-error-handling', out.exc is not None and out.exc.isa(StopHere) and st is not None)
+    if st is None:
+        return
+    META = v.real('falcon.constants')._META_METHODS
+    is_meta = Or(*[req.method == m for m in META])
+    HTTPBadRequest = v.real('falcon.errors:HTTPBadRequest')
+    if st['where'] == 'routing':
+        v.check('meta-method-requests-never-reach-routing', Not(is_meta))
+        v.cover('routed')
+    else:
+        v.check('only-meta-methods-are-rejected-before-routing', is_meta)
+        v.check('meta-method-request-is-a-400', st['ex'].isa(HTTPBadRequest))
+        v.cover('rejected')
+
+
+def _meta_guard_replay(v, asgi):
+    """Replay through the test client: a meta-method HTTP request to a resource that has on_websocket."""
+    method = v.str('method')
+    META = v.real('falcon.constants')._META_METHODS
+    if method not in META:
+        return
+    testing = v.real('falcon.testing')
+    hits = []
+    if asgi:
+        class Thing:
+            async def on_websocket(self, req, ws):
+                hits.append(req.method)
+    else:
+        class Thing:
+            def on_websocket(self, req, ws):
+                hits.append(req.method)
+    app = v.real(AAPP if asgi else APP)()
+    app.add_route('/thing', Thing())
+    if asgi:
+        status = testing.TestClient(app).simulate_request(method, '/thing').status_code
+    else:
+        srmock = testing.StartResponseMock()  # (the WSGI test client's validator refuses unknown methods)
+        list(app(testing.create_environ(method=method, path='/thing'), srmock))
+        status = int(srmock.status.split(' ')[0])
+    v.check('meta-method-requests-never-reach-routing', not hits)
+    v.check('meta-method-request-is-a-400', status == 400)
+
+
+for _a in (0, 1):
+    harness(PROP, (AAPP if _a else APP) + '.__call__', name='meta_guard[asgi=%d]' % _a, setup=_guard_setup, fix={'asgi-app?': _a})(meta_guard)
+
+
+# ---------------------------------------------------------------------------
+# StaticRoute.match: the matcher of a static entry
+
+
+@harness(PROP, 'falcon.routing.static:StaticRoute.match')
+def static_match(v):
+    prefix = v.str('prefix')
+    # normal form established by StaticRoute.__init__: starts and ends with '/'
+    v.assume(And(prefix.startswith('/'), prefix.endswith('/')))
+    fb = v.str('fallback') if v.choose(2, 'fallback?') else None
+    path = v.str('path')
+    sr = v.obj('falcon.routing.static:StaticRoute', _prefix=prefix, _fallback_filename=fb)
+    out = v.call(sr, path)
+    v.check('no-exception', out.exc is None)
+    if out.exc is not None:
+        return
+    bare = prefix[: Len(prefix) - 1]  # the prefix without its trailing slash
+    want = path.startswith(prefix) if fb is None else Or(path.startswith(prefix), path == bare)
+    v.check('matches-iff-path-under-prefix', Iff(out.value, want))
+    v.check('pure-predicate', And(v.get(sr, '_prefix') is prefix, v.get(sr, '_fallback_filename') is fb))
+    v.cover('decided')
+
+
 KILLS = [
     # the scan no longer stops at the first (most recent) match
     ('falcon/app.py', '                    responder = obj\n\n                    break\n', '                    responder = obj\n', '_get_responder#fallback-is-first-matching-entry'),
@@ -683,15 +1293,98 @@ KILLS = [
      '_get_responder#route-masks-sinks-and-static-routes'),
     # a static route gets the sink treatment
     ('falcon/app.py', '                    if is_sink:\n                        params = m.groupdict()', '                    if True:\n                        params = m.groupdict()',
-     '_get_responder#groupdict-only-asked-of-a-sink-match'),
+     '_get_responder#no-exception'),  # and #groupdict-only-asked-of-a-sink-match in the arbitrary-length harness
     # WEBSOCKET handshakes dispatched by the HTTP method
     ('falcon/app.py', "        method = 'WEBSOCKET' if req.is_websocket else req.method\n", '        method = req.method\n', '_get_responder#route-lookup-is-by-request-method-or-WEBSOCKET'),
     # 404 and 400 defaults swapped
     ('falcon/app.py', '                responder = self.__class__._default_responder_path_not_found\n', '                responder = self.__class__._default_responder_bad_request\n',
      '_get_responder#no-match-yields-404-default'),
+    # LIFO broken: a new sink goes to the end of the table
+    ('falcon/app.py', '        self._sinks.insert(0, (prefix, sink, True))\n', '        self._sinks.append((prefix, sink, True))\n', 'add_sink#sinks-table-newest-first'),
+    ('falcon/app.py', '        self._static_routes.insert(0, (sr, sr, False))\n', '        self._static_routes.append((sr, sr, False))\n',
+     'add_static_route#static-table-newest-first'),
+    # configured order ignored: statics before sinks although sink_before_static_route
+    ('falcon/app.py', '        if self._sink_before_static_route:\n            self._sink_and_static_routes = tuple(self._sinks + self._static_routes)',
+     '        if self._sink_before_static_route:\n            self._sink_and_static_routes = tuple(self._static_routes + self._sinks)',
+     '#combined-table-is-sinks-and-statics-in-configured-order'),
+    # the combined table is not rebuilt after a sink was added
+    ('falcon/app.py', '        self._sinks.insert(0, (prefix, sink, True))\n        self._update_sink_and_static_routes()\n', '        self._sinks.insert(0, (prefix, sink, True))\n',
+     'add_sink#combined-table-is-sinks-and-statics-in-configured-order'),
+    # the ASGI override forgets the prefix
+    ('falcon/asgi/app.py', '        super().add_sink(sink, prefix=prefix)', '        super().add_sink(sink)', 'add_sink#new-sink-entry-is-pattern-sink-true'),
+    # OPTIONS omitted from the Allow header of the 405
+    ('falcon/routing/util.py', "        allowed_methods.append('OPTIONS')\n", '        pass\n', 'set_default_responders#405-allow-lists-exactly-implemented-plus-options'),
+    # meta methods (WEBSOCKET) leak into Allow
+    ('falcon/routing/util.py', 'm for m in sorted(list(method_map.keys())) if m not in constants._META_METHODS', 'm for m in sorted(list(method_map.keys()))',
+     'set_default_responders#default-options-allow-lists-exactly-the-implemented-methods'),
+    # the user's OPTIONS responder is replaced by the default one
+    ('falcon/routing/util.py', "    if 'OPTIONS' not in method_map:\n", '    if True:\n', 'set_default_responders#implemented-responders-untouched'),
+    # the responder suffix is dropped from the attribute name
+    ('falcon/routing/util.py', "                responder_name += '_' + suffix\n", '                pass\n', 'map_http_methods#'),
+    # the router ignores the route's suffix / the ASGI app asks for WSGI-flavoured defaults
+    ('falcon/routing/compiled.py', "        return map_http_methods(resource, suffix=kwargs.get('suffix', None))", '        return map_http_methods(resource)',
+     'add_route#method-map-is-built-from-the-resource-and-the-route-suffix'),
+    ('falcon/asgi/app.py', "        kwargs['_asgi'] = True\n", "        kwargs['_asgi'] = False\n", 'add_route#defaults-are-filled-in-the-flavour-of-the-app'),
+    # HTTP requests with the meta method WEBSOCKET are routed (would reach on_websocket responders)
+    ('falcon/asgi/app.py', '            if req.method in self._META_METHODS:\n', '            if False:\n', '__call__#meta-method-requests-never-reach-routing'),
+    ('falcon/app.py', '            if req.method in self._META_METHODS:\n                raise HTTPBadRequest()\n',
+     '            if req.method in self._META_METHODS:\n                raise HTTPRouteNotFound()\n', '__call__#meta-method-request-is-a-400'),
+    # non-callable attributes are mapped
+    ('falcon/routing/util.py', '            if callable(responder):\n', '            if True:\n', 'map_http_methods#maps-exactly-the-existing-callable-responders'),
+    # default OPTIONS responder writes the wrong header / a different separator
+    ('falcon/responders.py', "    def options_responder(req: Request, resp: Response, **kwargs: Any) -> None:\n        resp.status = HTTP_200\n        resp.set_header('Allow', allowed)",
+     "    def options_responder(req: Request, resp: Response, **kwargs: Any) -> None:\n        resp.status = HTTP_200\n        resp.set_header('Accept', allowed)",
+     'create_default_options#options-sets-allow-and-content-length-only'),
+    ('falcon/errors.py', "        headers['Allow'] = ', '.join(allowed_methods)\n", "        headers['Allow'] = ','.join(allowed_methods)\n",
+     'HTTPMethodNotAllowed.__init__#allow-header-is-the-joined-list'),
+    # a static route with a fallback file no longer answers for its bare prefix
+    ('falcon/routing/static.py', "        return path.startswith(self._prefix) or path == self._prefix[:-1]\n", "        return path.startswith(self._prefix) or path == self._prefix\n",
+     'StaticRoute.match#matches-iff-path-under-prefix'),
 ]
-HARMLESS = []
+HARMLESS = [
+    # rename a local of the scan
+    ('falcon/app.py', '                m = matcher.match(path)\n                if m:\n                    if is_sink:\n                        params = m.groupdict()',
+     '                found = matcher.match(path)\n                if found:\n                    if is_sink:\n                        params = found.groupdict()'),
+    # the two branches of the rebuild written the other way round
+    ('falcon/app.py', '        if self._sink_before_static_route:\n            self._sink_and_static_routes = tuple(self._sinks + self._static_routes)  # type: ignore[operator]\n        else:\n            self._sink_and_static_routes = tuple(self._static_routes + self._sinks)  # type: ignore[operator]\n',
+     '        if not self._sink_before_static_route:\n            self._sink_and_static_routes = tuple(self._static_routes + self._sinks)\n        else:\n            self._sink_and_static_routes = tuple(self._sinks + self._static_routes)\n'),
+    # rename locals of the fill loop
+    ('falcon/routing/util.py', '    na_responder = responders.create_method_not_allowed(allowed_methods, asgi=asgi)\n\n    for method in constants.COMBINED_METHODS:\n        if method not in method_map:\n            method_map[method] = na_responder',
+     '    na = responders.create_method_not_allowed(allowed_methods, asgi=asgi)\n\n    for http_method in constants.COMBINED_METHODS:\n        if http_method not in method_map:\n            method_map[http_method] = na'),
+]
 
-ASSUMPTIONS = []
-NOT_DECIDED = []
-TRUSTED = []
+ASSUMPTIONS = [
+    'matcher.match(path) (a sink\'s compiled pattern, StaticRoute.match) is a pure predicate of the path: its result for one path does not depend on '
+    'when or how often it is asked (stub Matcher / function symbol entry_matches_path); a successful sink match is truthy and has groupdict()',
+    'the router\'s find() is opaque: it returns None, a (None, None, None[, None]) legacy "not found" tuple, or (resource, method_map, params[, uri_template]) '
+    'with a non-None resource; method_map is an arbitrary mapping (the looked-up key is bound or raises KeyError)',
+    'a route registered with resource=None is treated by falcon as "no route" (documented legacy-router normalisation); the masking clause is stated for routes with a resource',
+    'induction over the registration history is done on paper: base case app_init, step add_sink / add_static_route over arbitrary tables; only these functions and '
+    '_update_sink_and_static_routes assign the three table fields (checked by text search, see the frame note in NOT_DECIDED)',
+    'App.__init__: add_middleware, add_error_handler, router and option constructors are stubbed as no-ops on the tables',
+    'a request method outside COMBINED_METHODS (and not implemented by the resource) on a matched route gets the bad-request default (400, "Invalid HTTP method"), '
+    'as documented in _get_responder; the 405 sentence of the property is read for the methods falcon supports (COMBINED_METHODS), see set_default_responders',
+    'asgi.App.add_sink: inspect.iscoroutinefunction / falcon.util.is_python_func are opaque predicates of the sink, _should_wrap_non_coroutines an opaque flag, '
+    'wrap_sync_to_async(f) returns a wrapper identified by f',
+]
+NOT_DECIDED = [
+    'map_http_methods: NOT every one of the 3^23 attribute configurations -- each single method of COMBINED_METHODS under every combination of '
+    '{absent, callable, not callable} x {plain, suffixed} attribute, crossed with 4 uniform backgrounds for the other 22 methods and 3 suffix values (3312 concrete cases)',
+    'set_default_responders: NOT every one of the 2^23 key sets -- every subset of the 10 representatives '
+    '(GET HEAD POST PUT DELETE PATCH OPTIONS WEBSOCKET VERSION-CONTROL CHECKIN) x {all, none} of the other 13 methods x {wsgi, asgi} (4096 concrete cases); '
+    'the code treats methods uniformly except OPTIONS and the meta methods, which are among the representatives',
+    'get_responder[n=..]: lengths 0..3 unrolled; the general n is get_responder_any_length (loop invariant), whose counter-models are not replayable '
+    '(the table is a function symbol) -- the bounded harnesses supply the replay',
+    'the call sites `responder(req, resp, **params)` in App.__call__ / asgi.App.__call__ / _handle_websocket (params reach the responder as keyword arguments, '
+    'possibly edited by process_resource middleware) belong to the stack-discipline contracts of C03; here only the prefix of __call__ up to routing is executed',
+    'frame: that no other method of App writes _sinks / _static_routes / _sink_and_static_routes is a text-search fact (grep), not an obligation',
+    'CompiledRouter.find / the tree insertion after the method map is built: C01',
+    'FALCON_CUSTOM_HTTP_METHODS: COMBINED_METHODS is whatever the import of falcon.constants produced in the checking process (no custom methods)',
+]
+TRUSTED = [
+    'stubs Req, RouterSearch, MethodMap, Matcher/MatchObj, Table/IMatcher/IMatch (index-function view of the combined table), GList/World '
+    '(python list of arbitrary length as z3 Seq of entry identities; insert/append/+/tuple), Sink/Wrapped, Resp, Factory, GuardReq/GuardResp in contracts/C02_dispatch.py',
+    'model overrides installed by this file: tuple(GList) -> frozen GList; inspect.iscoroutinefunction(Sink) -> its flag',
+    'HTTPMethodNotAllowed / HTTPRouteNotFound / HTTPBadRequest raised with concrete arguments are constructed natively by the real class (Allow header read from the real exception)',
+    'replay of route_wiring and meta_guard uses the real App, router and falcon.testing helpers',
+]
